@@ -1200,8 +1200,8 @@ func (p *printer) expr(t *Term, bmemo map[*Term]bool) string {
 		var order []*Term
 		var walk func(u *Term)
 		walk = func(u *Term) {
-			if !p.hasBound(u, bmemo) || u.Op == "var" {
-				return
+			if !p.hasBound(u, bmemo) || u.Op == "var" || u.Op == "forall" || u.Op == "exists" {
+				return // nested quantifiers bind their own shared subterms
 			}
 			cnt[u]++
 			if cnt[u] > 1 {
